@@ -437,16 +437,23 @@ def inline_tail_workers(model, known, notes):
         ok_all = True
         plans = []
         for f, call in sites:
-            st = f.body.get("inner") or []
-            pos = None
-            for i, s_ in enumerate(st):
-                if any(y is call for y in walk(s_)):
-                    pos = i
-            if pos is None:
+            # the block whose statement the call is: the function body, or a nested block that ends in a return
+            holder = None
+            for blk_ in walk(f.body):
+                if blk_["kind"] == "CompoundStmt":
+                    for i, s_ in enumerate(kids(blk_)):
+                        if s_["kind"] in ("DeclStmt", "ReturnStmt") and any(y is call for y in walk(s_)) or strip(s_, casts=True) is call:
+                            holder, pos = blk_, i
+            if holder is None:
                 ok_all = False
                 break
+            st = holder.get("inner") or []
             s_ = st[pos]
             rest = st[pos + 1:]
+            if holder is not f.body and any(any(y is holder for y in walk(l_)) for l_ in walk(f.body)
+                                            if l_["kind"] in ("ForStmt", "WhileStmt", "DoStmt", "SwitchStmt")):
+                ok_all = False          # inside a loop of the caller: the worker's returns would have to become jumps
+                break
             vd = None
             if s_["kind"] == "ReturnStmt" and kids(s_) and strip(kids(s_)[0], casts=True) is call:
                 mode = "return"
@@ -463,7 +470,7 @@ def inline_tail_workers(model, known, notes):
                     ok_all = False
                     break
             elif strip(s_, casts=True) is call and (g.type or "").strip().startswith(("void (", "void(")) and \
-                    not rest:
+                    not rest and holder is f.body:
                 mode = "last"
             else:
                 ok_all = False
@@ -471,13 +478,13 @@ def inline_tail_workers(model, known, notes):
             if len(kids(call)) - 1 != len(g.params):
                 ok_all = False
                 break
-            plans.append((f, call, pos, mode, vd, rest))
+            plans.append((f, call, pos, mode, vd, rest, holder))
         if not ok_all:
             continue
         # two sites in the same caller would need re-planning after the first splice: leave those
         if len({id(f) for f, *_ in plans}) != len(plans):
             continue
-        for f, call, pos, mode, vd, rest in plans:
+        for f, call, pos, mode, vd, rest, holder in plans:
             idmap = {}
             decls = []
             for p_, a_ in zip(g.params, kids(call)[1:]):
@@ -515,8 +522,8 @@ def inline_tail_workers(model, known, notes):
                     else:
                         rewrite(c_)
             rewrite(body)
-            st = f.body["inner"]
-            f.body["inner"] = st[:pos] + decls + kids(body)
+            st = holder["inner"]
+            holder["inner"] = st[:pos] + decls + kids(body)
             done += 1
         del model.funcs[gk]
         model.static_names.get(g.unit, set()).discard(g.name)
